@@ -206,6 +206,9 @@ func (m *Method) compileOutput() error {
 			m.Response = out
 
 		case KindService:
+			if out.Ref == nil || out.Ref.Service == nil || !out.Ref.Service.Sub {
+				return fmt.Errorf("invalid output, %q is not a subservice", out.Name)
+			}
 			m.Subservice = out
 
 		default:
